@@ -284,7 +284,10 @@ def gen_hist(rng, wfok=True, nops=(6, 16)):
 
 
 def generate(rng, tier, scale=1):
-    k = (290 if tier == "quick" else 4000) * scale
+    # thorough: 2000 sequences in shards of 80 (one coqc start-up costs about as much as evaluating 15 cases)
+    global COQ_SHARD
+    COQ_SHARD = 30 if tier == "quick" else 80
+    k = (290 if tier == "quick" else 2000) * scale
     cs = []
     for i in range(k):
         if i % 10 == 9:
